@@ -52,9 +52,12 @@ pub struct Knobs {
     pub call_heavy: bool,
     /// bias towards instructions that read / move contract code, balances and storage (C30)
     pub code_ops: bool,
+    /// scripts end by probing `GTF InputContractOutputIndex` for a few input indices and logging the answers (the only
+    /// observer of the interpreter's input-index -> output-index map; a non-contract index panics InputNotFound)
+    pub gtf_probe: bool,
 }
 impl Knobs {
-    pub fn normal() -> Self { Knobs { fault_pm: 30, unlisted_pm: 0, max_blocks: 10, coins: true, call_heavy: false, code_ops: false } }
+    pub fn normal() -> Self { Knobs { fault_pm: 30, unlisted_pm: 0, max_blocks: 10, coins: true, call_heavy: false, code_ops: false, gtf_probe: false } }
 }
 
 fn gp(rng: &mut Rng) -> u8 { GP_LO + rng.below(GP_N as u64) as u8 }
@@ -117,6 +120,21 @@ fn cid_idx(g: &mut GenCtx) -> usize {
 }
 
 fn call_block(g: &mut GenCtx, idx: usize, out: &mut Vec<Instruction>) {
+    // a LIVE stack frame around the call ($sp > $ssp): locals with distinct words are stored before the CALL and read
+    // back after the return (a mismatch reverts with the differing word), or registers are pushed / popped around it
+    let live = if g.knobs.call_heavy { g.rng.below(4) } else { g.rng.below(12) };
+    let words = *g.rng.pick(&[1u32, 2, 3, 5, 8, 17, 64]);
+    let vals: Vec<u32> = (0..words.min(4)).map(|w| 0x2_A000 + ((g.rng.next() as u32) & 0xff0) + w).collect();
+    let mask = ((g.rng.next() & 0xfff) as u32 | 1) << 4;
+    match live {
+        0 | 1 => {
+            out.push(op::move_(R_T5, RegId::SP));
+            out.push(op::cfei(words * 8));
+            for (w, v) in vals.iter().enumerate() { out.push(op::movi(R_T6, *v)); out.push(op::sw(R_T5, R_T6, w as u16)); }
+        }
+        2 => out.push(op::pshl(mask)),
+        _ => {}
+    }
     out.push(op::addi(R_T1, R_BASE, OFF_CALLS + 48 * idx as u16));
     let asset = g.rng.below(2) as u16;
     out.push(op::addi(R_T2, R_BASE, OFF_ASSETS + 32 * asset));
@@ -128,6 +146,21 @@ fn call_block(g: &mut GenCtx, idx: usize, out: &mut Vec<Instruction>) {
         let gas = *g.rng.pick(&[0u32, 1, 50, 500, 5_000, 50_000, 262_143]);
         out.push(op::movi(R_T4, gas));
         out.push(op::call(R_T1, R_T3, R_T2, R_T4));
+    }
+    match live {
+        0 | 1 => {
+            for (w, v) in vals.iter().enumerate() {
+                out.push(op::lw(R_T7, R_T5, w as u16));
+                out.push(op::movi(R_T6, *v));
+                out.push(op::xor(R_T7, R_T7, R_T6));
+                out.push(op::jnzf(R_T7, RegId::ZERO, 1));
+                out.push(op::jmpf(RegId::ZERO, 1));
+                out.push(op::rvrt(R_T7));
+            }
+            if live == 0 { out.push(op::cfsi(words * 8)); }
+        }
+        2 => out.push(op::popl(mask)),
+        _ => {}
     }
 }
 
@@ -295,6 +328,14 @@ pub fn program(g: &mut GenCtx) -> Vec<Instruction> {
     }
     let nb = g.rng.range(1, g.knobs.max_blocks.max(1));
     for _ in 0..nb { block(g, &mut out); }
+    if g.knobs.gtf_probe && !g.internal && g.rng.chance(2, 3) {
+        let n = g.rng.range(1, 3);
+        for _ in 0..n {
+            out.push(op::movi(R_T1, g.rng.below(6) as u32));
+            out.push(op::gtf_args(R_T2, R_T1, GTFArgs::InputContractOutputIndex));
+            out.push(op::log(R_T1, R_T2, RegId::ZERO, RegId::ZERO));
+        }
+    }
     epilogue(g, &mut out);
     out
 }
@@ -410,6 +451,114 @@ pub fn gen_case_with(rng: &mut Rng, knobs: Knobs, gas_limit: Word, custom_script
     let mut params = ConsensusParameters::standard();
     if let Some(c) = costs { params.set_gas_costs(c); }
     Case { checked, storage, params, script, call_ids, listed, deployed, gas_limit }
+}
+
+/// One world (2-4 deployed contracts, one storage) and `k` transactions over it whose contract-input SETS and ORDERS
+/// differ (random subsets incl. the empty one, shuffled input order, contract outputs in a different order), each with
+/// its own script that addresses listed, deployed-but-unlisted and absent contracts. For instance-reuse checks.
+pub fn gen_world_cases(rng: &mut Rng, knobs: Knobs, gas_limit: Word, k: usize) -> Vec<Case> {
+    let seed = rng.next();
+    let mut tb = TestBuilder::new(seed);
+    let n_contracts = rng.range(2, 4) as usize;
+    let assets = [AssetId::zeroed(), AssetId::new(rng.arr32()), AssetId::new(rng.arr32()), AssetId::new(rng.arr32())];
+    let mut call_ids = [ContractId::zeroed(); N_CALLS];
+    for c in call_ids.iter_mut() { *c = ContractId::new(rng.arr32()); }
+    let mut deployed = vec![];
+    for i in 0..n_contracts {
+        let callable: Vec<usize> = deployed.clone();
+        let mut g = GenCtx { rng, knobs, internal: true, callable, unlisted: vec![], self_idx: Some(i), depth: 0 };
+        g.knobs.max_blocks = knobs.max_blocks.min(5);
+        g.knobs.unlisted_pm = 0;
+        let code = program(&mut g);
+        let bal = Some((assets[rng.below(2) as usize], 10 + rng.below(1000)));
+        let created = tb.setup_contract(code, bal, None);
+        call_ids[i] = created.contract_id;
+        deployed.push(i);
+    }
+    let storage = tb.get_storage().clone();
+    let mut out = vec![];
+    for _ in 0..k {
+        // subset + order
+        let mut listed: Vec<usize> = deployed.iter().copied().filter(|_| rng.chance(1, 2)).collect();
+        for i in (1..listed.len()).rev() { let j = rng.below(i as u64 + 1) as usize; listed.swap(i, j); }
+        let mut unlisted: Vec<usize> = deployed.iter().copied().filter(|i| !listed.contains(i)).collect();
+        if unlisted.is_empty() || rng.chance(1, 4) { unlisted.extend(n_contracts..N_CALLS); }
+        let script: Vec<Instruction> = {
+            let mut kn = knobs; kn.gtf_probe = true;
+            // a third of the scripts do nothing that can panic before the probes
+            if rng.chance(1, 3) { kn.max_blocks = 1; kn.unlisted_pm = 0; }
+            let mut g = GenCtx { rng, knobs: kn, internal: false, callable: listed.clone(), unlisted, self_idx: None, depth: 0 };
+            program(&mut g)
+        };
+        let mut data = Vec::with_capacity(DATA_LEN);
+        for i in 0..N_CALLS {
+            data.extend_from_slice(call_ids[i].as_ref());
+            data.extend_from_slice(&rng.word().to_be_bytes());
+            data.extend_from_slice(&rng.word().to_be_bytes());
+        }
+        for a in assets.iter() { data.extend_from_slice(a.as_ref()); }
+        for i in 0..4u8 { let mut key = [0u8; 32]; key[31] = i; data.extend_from_slice(&key); }
+        data.extend_from_slice(&rng.arr32());
+        data.extend_from_slice(&rng.bytes(64));
+        assert_eq!(data.len(), DATA_LEN);
+        tb.start_script(script.clone(), data);
+        tb.script_gas_limit(gas_limit);
+        tb.gas_price(0);
+        tb.variable_output(assets[0]);
+        // contract inputs at varying positions among the other inputs
+        let before = rng.below(3);
+        if before >= 1 { tb.fee_input(); }
+        if before >= 2 { tb.coin_input(assets[1], 1 + rng.below(1000)); }
+        for &i in &listed { tb.contract_input(call_ids[i]); }
+        if before < 1 { tb.fee_input(); }
+        if before < 2 { tb.coin_input(assets[1], 1 + rng.below(1000)); }
+        tb.coin_input(assets[0], 1_000 + rng.below(1000));
+        let mut outs = listed.clone();
+        if rng.chance(1, 2) { outs.reverse(); }
+        if rng.chance(1, 2) { tb.change_output(assets[1]); }
+        for &i in &outs { tb.contract_output(&call_ids[i]); }
+        tb.change_output(assets[0]);
+        let checked = tb.build();
+        out.push(Case { checked, storage: storage.clone(), params: ConsensusParameters::standard(), script, call_ids, listed, deployed: deployed.clone(), gas_limit });
+    }
+    out
+}
+
+/// a case with given contract programs (slot i of the call structs = contract i, all listed), a given script and given
+/// `(a, b)` call parameters per slot
+pub fn fixed_case(seed: u64, contracts: &[Vec<Instruction>], script: Vec<Instruction>, slot_ab: &[(u64, u64)], gas_limit: Word) -> Case {
+    let mut rng = Rng(seed);
+    let mut tb = TestBuilder::new(seed);
+    let assets = [AssetId::zeroed(), AssetId::new(rng.arr32()), AssetId::new(rng.arr32()), AssetId::new(rng.arr32())];
+    let mut call_ids = [ContractId::zeroed(); N_CALLS];
+    for c in call_ids.iter_mut() { *c = ContractId::new(rng.arr32()); }
+    let mut deployed = vec![];
+    for (i, code) in contracts.iter().enumerate() {
+        let created = tb.setup_contract(code.clone(), None, None);
+        call_ids[i] = created.contract_id;
+        deployed.push(i);
+    }
+    let mut data = Vec::with_capacity(DATA_LEN);
+    for i in 0..N_CALLS {
+        data.extend_from_slice(call_ids[i].as_ref());
+        let (a, b) = slot_ab.get(i).copied().unwrap_or((0, 0));
+        data.extend_from_slice(&a.to_be_bytes());
+        data.extend_from_slice(&b.to_be_bytes());
+    }
+    for a in assets.iter() { data.extend_from_slice(a.as_ref()); }
+    data.resize(DATA_LEN, 0x5a);
+    tb.start_script(script.clone(), data);
+    tb.script_gas_limit(gas_limit);
+    tb.gas_price(0);
+    tb.variable_output(assets[0]);
+    tb.fee_input();
+    tb.coin_input(assets[0], 1_000);
+    for &i in &deployed { tb.contract_input(call_ids[i]); }
+    for &i in &deployed { tb.contract_output(&call_ids[i]); }
+    tb.change_output(assets[0]);
+    let checked = tb.build();
+    let storage = tb.get_storage().clone();
+    Case { checked, storage, params: ConsensusParameters::standard(), script, call_ids, listed: deployed.clone(), deployed, gas_limit }
 }
 
 /// canonical digest of everything the whole-VM properties call "the result"
